@@ -949,16 +949,22 @@ class Interp:
     def class_const(self, owner, nm, expr):
         key = ("class", owner, nm)
         if key not in self.globals_cache:
-            self.globals_cache[key] = self.ev_in_module(expr, self.pkg.classes[owner].module)
+            # a class body is a scope: names of earlier class-level bindings are visible in later ones
+            ci = self.pkg.classes[owner]
+            env = {}
+            for x in ast.walk(expr):
+                if isinstance(x, ast.Name) and x.id in ci.consts and x.id != nm:
+                    env[x.id] = self.class_const(owner, x.id, ci.consts[x.id])
+            self.globals_cache[key] = self.ev_in_module(expr, ci.module, env)
         return self.globals_cache[key]
 
-    def ev_in_module(self, expr, rel):
+    def ev_in_module(self, expr, rel, env=None):
         fake = ast.FunctionDef(name="<module>", args=None, body=[], decorator_list=[])
         fake._gs_module = rel
         fake._gs_class = None
         self.fn_stack.append(fake)
         try:
-            return self.ev(expr, {})
+            return self.ev(expr, dict(env or {}))
         finally:
             self.fn_stack.pop()
 
@@ -1457,6 +1463,11 @@ class Interp:
                 if k[0] == "const":
                     return self.class_const(k[2], a, k[1])
                 return Opaque("bound", v, a)
+        if isinstance(v, slice) and a in ("start", "stop", "step"):
+            x = getattr(v, a)
+            return None if x is None else Poly.const(x)
+        if isinstance(v, (dict, list, tuple, str)) and a == "__getitem__":
+            return Opaque("callable", (lambda k, v=v, n=n: self.ev_Subscript(ast.Subscript(value=_Lit(v), slice=_Lit(k), ctx=ast.Load(), lineno=getattr(n, "lineno", 0)), {})))
         if isinstance(v, Arr) and a == "__dict__":
             return v.__dict__.setdefault("attrs", {})
         if isinstance(v, Arr) and a in v.__dict__.get("attrs", {}):
@@ -1675,6 +1686,21 @@ class Interp:
             if leaf == "itemgetter":
                 return Opaque("callable", (lambda x, keys=keys: self.index(x, self.intval(keys[0], n), n) if len(keys) == 1 else
                                            tuple(self.index(x, self.intval(k, n), n) for k in keys)))
+        if origin.startswith("operator") and leaf == "attrgetter":
+            names = list(args)
+            if not all(isinstance(x, str) for x in names):
+                raise self.unsupported("attrgetter with non-literal names", n)
+
+            def get1(obj, nm):
+                for part in nm.split("."):
+                    obj = self.ev_Attribute(ast.Attribute(value=_Lit(obj), attr=part, ctx=ast.Load(), lineno=getattr(n, "lineno", 0)), {})
+                return obj
+            return Opaque("callable", (lambda obj, names=names: get1(obj, names[0]) if len(names) == 1 else tuple(get1(obj, x) for x in names)))
+        if origin.startswith("functools") and leaf == "partial":
+            f0, a0, k0 = args[0], list(args[1:]), dict(kw)
+            return Opaque("callable", (lambda *a, f0=f0, a0=a0, k0=k0, **k: self.ev_Call(
+                ast.Call(func=_Lit(f0), args=[_Lit(x) for x in a0 + list(a)],
+                         keywords=[ast.keyword(arg=kk, value=_Lit(vv)) for kk, vv in {**k0, **k}.items()], lineno=getattr(n, "lineno", 0)), {})))
         if origin == "re" or origin.startswith("re."):
             return self.re_call(leaf, None, args, kw, n)
         if leaf == "defaultdict":
@@ -2174,9 +2200,17 @@ class Interp:
             r = set(self.hashable(x, n) for x in seq)
             return r if name == "set" else frozenset(r)
         if name == "dict":
-            if args or kw:
-                raise self.unsupported("dict() with arguments", n)
-            return {}
+            d = {}
+            if args:
+                if isinstance(args[0], dict):
+                    d.update(args[0])
+                else:
+                    for pair in self.iterate(args[0], n):
+                        k2, v2 = self.iterate(pair, n)
+                        d[self.hashable(k2, n)] = v2
+            for k2, v2 in kw.items():
+                d[k2] = v2
+            return d
         if name in ("list", "tuple"):
             seq = self.iterate(args[0], n) if args else []
             return list(seq) if name == "list" else tuple(seq)
@@ -2760,6 +2794,15 @@ class Interp:
         if name == "arange":
             iv = [self.intval(a, n) for a in args]
             return Arr([Poly.const(i) for i in range(*iv)], 1)
+        if name in ("repeat", "tile") and len(args) == 2 and "axis" not in kw:
+            a = self.to_arr(args[0], n) if not isinstance(args[0], (Poly, Wrapped)) else Arr([self.scalar(args[0], n)], 1)
+            k = self.intval(args[1], n)
+            flat = a.flat()
+            if name == "repeat":
+                return Arr([x for x in flat for _ in range(k)], 1)
+            if a.ndim == 1:
+                return Arr(list(flat) * k, 1)
+            return Arr([list(r) * k for r in a.data], 2)
         if name in ("atleast_1d", "squeeze", "ravel", "asfarray"):
             v = args[0]
             if isinstance(v, (Poly, Wrapped)):
